@@ -439,6 +439,9 @@ func (op *redirOp) exec(fm *Frame, fops *[]formOwnedPort) Exception {
 		case src == -1:
 			// close
 			*dstPort = &Port{
+				// Reading value input from a closed port yields nothing (a
+				// nil channel would block the reader forever).
+				Chan: ClosedChan,
 				// Ensure that writing to value output throws an exception
 				sendStop: closedSendStop, sendError: &ErrPortDoesNotSupportValueOutput}
 		case src < 0 || src >= len(fm.ports) || fm.ports[src] == nil:
